@@ -10,14 +10,15 @@ ASSUME = [
     "pop_point: for concrete attribute sets (Cartesian+state+row; colour+flag; scaled-integer intensity+flag; spherical+state+column) and ANY raw values: validity follows the invalid-state attribute, fails exactly for a "
     "state value outside its documented set, scaled integers are value x scale + offset, colour/intensity absent exactly when flagged, row/column default -1, normalisation on/off selects the documented expression "
     "(division uninterpreted here; its value properties are C13)",
-    "NOT covered: Iterator::next bookkeeping (same count/order as the raw iterator, option switches applied per batch), and therefore the known simple-iterator behaviour on packets without a complete point",
-    "pop_point counterexamples have no native replay yet: a violation there is reported as inconclusive (exit 2), never as a violation",
+    "Iterator::next: the FIRST next() of the raw and of the simple iterator over two legal layouts ([data packet without a complete point, data packet with one point] and [data packet with one point]) "
+    "delivers the point (symbolic device content constrained to that layout, any section position); general bookkeeping over many points (count/order equal to the raw iterator, switches per batch) is not covered",
+    "pop_point counterexamples are replayed natively through PointCloudReaderSimple::new over a sealed device, with the raw values pushed into the queues by a test-only helper",
 ]
 
 
 def run(ctx):
-    from mirsym import spec_simple
+    from mirsym import spec_iter, spec_simple
     tier = ctx["tier"]
-    obls, samples = mlane.run_scenarios("C05", "O05", spec_simple.scenarios(tier) + spec_simple.pop_scenarios(tier), ctx, "one point per run; all component values symbolic; attribute sets concrete")
+    obls, samples = mlane.run_scenarios("C05", "O05", spec_simple.scenarios(tier) + spec_simple.pop_scenarios(tier) + spec_iter.scenarios(tier)[:3], ctx, "one point per run; all component values symbolic; attribute sets concrete")
     return dict(obligations=obls, functions=FUNCTIONS, assumptions=ASSUME, samples=samples,
                 extra={"engine": "mirsym (MIR -> z3 5.1)", "mir_regenerated_from": "/repo working tree"})
